@@ -118,10 +118,14 @@ def make_target(state, names, kind="uniform", removed=(), zeroed=()):
     return out
 
 
+EJKS_DICT_ORDER = ["names"]   # "names" or "reversed": insertion order of the per-topology matrices in the EJKS dict
+
+
 def target_object(target, names):
     from gcmpy.tools.joint_excess_joint_degree_matrices import JointExcessJointDegreeMatrices
     from gcmpy.names.tools_names import ToolsNames as TN
-    return JointExcessJointDegreeMatrices({TN.EJKS: {n: dict(target[n]) for n in names}, TN.EDGE_NAMES: list(names)})
+    order = list(names) if EJKS_DICT_ORDER[0] == "names" else list(reversed(names))
+    return JointExcessJointDegreeMatrices({TN.EJKS: {n: dict(target[n]) for n in order}, TN.EDGE_NAMES: list(names)})
 
 
 def motif_shapes(state):
